@@ -882,7 +882,13 @@ def _c01_rule_l(F):
     return c01.rule_l(F)
 
 
+def _c01_rule_d(F):
+    from rules import c01 as _c01m
+    return _c01m.rule_d(F)
+
+
 RULES = [
+    Rule("C06.J", shared(_c01_rule_d, "C01.D", "C06.J"), 3, "a captured local of a loop body is on top when its scope ends: leftover statement values are dropped first (shared with C01.D)"),
     Rule("C06.W", rule_w, 2, "upvalue indices are per function"),
     Rule("C06.I", shared(_c01_rule_l, "C01.L", "C06.I"), 7, "loop variables visible to closures are per-iteration locals (shared with C01.L)"),
     Rule("C06.O", rule_o, 3, "value-stack slots addressed from bytecode operands are frame-relative"),
